@@ -33,7 +33,13 @@ def _dcp(it, d):
     return dict(d)
 
 
-_stubs = {"self.unlink": _unlink, "self.relink": _relink, "new.relink": _relink, "sc.dcp": _dcp}
+def _cp(it, d):
+    """sc.cp / copy.copy: a SHALLOW copy -- a new dict whose values are the original's objects"""
+    it.live_env["LOG"].append(("shallow-copy", d))
+    return d
+
+
+_stubs = {"self.unlink": _unlink, "self.relink": _relink, "new.relink": _relink, "sc.dcp": _dcp, "sc.cp": _cp, "copy.copy": _cp, "copy.deepcopy": _dcp}
 CONTRACTS["model:Model.__getstate__"] = dict(
     schema=schema, make_env=_make_env, call_stubs=_stubs, ghost_params={},
     ensures=[("C08.the_state_is_copied_while_unlinked", "[e[0] for e in LOG] == ['unlink', 'copy', 'relink'] and LOG[1][1]['LINKED'] == False and result['LINKED'] == False and result['payload'] == 'state of the model'"),
